@@ -88,13 +88,21 @@ structure State where
   connected : Bool            -- `context.server.timestamp_start is not None`
   live : Bool                 -- `flow.live`
   error : Bool                -- `flow.error is not None`
+  killed : Bool               -- `flow.error.msg == Error.KILLED_MESSAGE` (an addon called `flow.kill()`)
+  cEofFail : Bool             -- environment: `writer.write_eof()` on the client socket raises OSError
+  sEofFail : Bool             -- environment: the same for the server socket
   trace : List Output         -- every command yielded so far (ghost log; never read by the model)
 deriving Repr
 
 def init (proto : Proto) (flow connected : Bool) : State :=
   { proto, flow, connectAs := .opened, phase := .idle, pending := .none, queue := [], msgs := [],
     client := .opened, server := if connected then .opened else .shut, connected, live := true,
-    error := false, trace := [] }
+    error := false, killed := false, cEofFail := false, sEofFail := false, trace := [] }
+
+/-- like `init`, but the sockets may be dead for writing: a half-close then hits the `except OSError` branch of
+    `ConnectionHandler.close_connection` ("we presume it completely dead": state CLOSED, handler cancelled) -/
+def initX (proto : Proto) (flow connected cEofFail sEofFail : Bool) : State :=
+  { init proto flow connected with cEofFail, sEofFail }
 
 def State.conn (st : State) : Side → Conn
   | .client => st.client
@@ -111,14 +119,18 @@ def State.flowMessages (st : State) : List Msg :=
   | .msgHook _ m => st.msgs ++ [m]
   | _ => st.msgs
 
-/-- `ConnectionHandler.close_connection` -/
-def applyClose (c : Conn) (half : Bool) : Conn :=
-  if half then { c with canWrite := false } else .shut
+def State.eofFail (st : State) : Side → Bool
+  | .client => st.cEofFail
+  | .server => st.sEofFail
+
+/-- `ConnectionHandler.close_connection`; `eofFails`: `write_eof()` raises OSError, the connection is presumed dead -/
+def applyClose (c : Conn) (half : Bool) (eofFails : Bool := false) : Conn :=
+  if half then (if eofFails then .shut else { c with canWrite := false }) else .shut
 
 /-- yield a command; `server.py` executes it before the generator is advanced -/
 def emit (st : State) (o : Output) : State :=
   match o with
-  | .close s half => { st.setConn s (applyClose (st.conn s) half) with trace := st.trace ++ [o] }
+  | .close s half => { st.setConn s (applyClose (st.conn s) half (st.eofFail s)) with trace := st.trace ++ [o] }
   | _ => { st with trace := st.trace ++ [o] }
 
 /-- `if self.flow: yield EndHook(flow); flow.live = False` (up to the blocking hook) -/
@@ -181,7 +193,13 @@ inductive Input
   | closed (s : Side) (full : Bool)            -- server.py: state &= ~CAN_READ (or CLOSED), then `ConnectionClosed`
   | hookDone (edit : Option Bytes)             -- `HookCompleted`; a message hook may have rewritten `messages[-1].content`
   | connectDone (err : Bool)                   -- `OpenConnectionCompleted`
+  | hookKill                                   -- `HookCompleted` after the addon called `flow.kill()` inside the hook
 deriving DecidableEq, Repr
+
+/-- `Flow.kill()`: only if `killable` (`live and not killed`); sets `error = Error(KILLED_MESSAGE)`, `live = False`.
+    Neither layer ever looks at these fields again, which is why killing does not stop the relay. -/
+def applyKill (st : State) : State :=
+  if st.live && !st.killed then { st with error := true, killed := true, live := false } else st
 
 /-- `Layer.handle_event` for an ordinary event -/
 def deliver (st : State) (ev : Ev) : State :=
@@ -214,6 +232,16 @@ def step (st : State) (i : Input) : State :=
         let st := emit { st with pending := .none, msgs := st.msgs ++ [m'] } (.send to m'.content)
         drain st.queue st
       | .endHook => let st := { st with pending := .none, live := false }; drain st.queue st
+      | _ => st
+    | .hookKill =>
+      match st.pending with
+      | .startHook => let st := enterRelayOrConnect { applyKill st with pending := .none }; drain st.queue st
+      | .errorHook => let st := afterError { applyKill st with pending := .none }; drain st.queue st
+      | .msgHook to m =>
+        let st := applyKill st
+        let st := emit { st with pending := .none, msgs := st.msgs ++ [m] } (.send to m.content)
+        drain st.queue st
+      | .endHook => let st := { applyKill st with pending := .none, live := false }; drain st.queue st
       | _ => st
     | .connectDone err =>
       match st.pending with
